@@ -102,7 +102,22 @@ class EndpointCollection:
                     error.header = f"WARNING parsing {method.upper()} {path} within {'/'.join(tags)}."
                     for collection in collections:
                         collection.parse_errors.append(error)
+                module_name = utils.PythonIdentifier(endpoint.name, config.field_prefix)
                 for collection in collections:
+                    if any(
+                        utils.PythonIdentifier(other.name, config.field_prefix) == module_name
+                        for other in collection.endpoints
+                    ):
+                        collection.parse_errors.append(
+                            ParseError(
+                                header=(
+                                    f"WARNING parsing {method.upper()} {path} within {collection.tag}. "
+                                    f"Endpoint will not be generated."
+                                ),
+                                detail=f"Another endpoint in this tag already uses the module name {module_name}",
+                            )
+                        )
+                        continue
                     collection.endpoints.append(endpoint)
 
         return endpoints_by_tag, schemas, parameters
